@@ -100,6 +100,11 @@ func Main(prop, tier string, only int) int {
 			jobs = append(jobs, job{"C17(" + sc.P.String() + ")", vsched.Config{Bound: sc.Bound, FireBudget: sc.P.Fire, MaxExec: sc.Max, Deadline: dl, StateKeys: true,
 				Body: c17Body(sc.P), Check: c17Check}})
 		}
+	case "C15":
+		for _, sc := range c15Scenarios(tier) {
+			jobs = append(jobs, job{"C15(" + sc.P.String() + ")", vsched.Config{Bound: sc.Bound, TickBudget: sc.P.Ticks, Deadline: dl, StateKeys: true,
+				Body: c15Body(sc.P), Check: c15Check}})
+		}
 	default:
 		fmt.Printf("INFRA no E3 scenarios for %s\n", prop)
 		return 2
